@@ -546,6 +546,36 @@ def refusals_case(case):
     return '; '.join(problems[:3]) or None
 
 
+def timeout_none_case(case):
+    """entities whose timeout is None ("wait as long as it takes") on both sides: an association is requested, accepted,
+    used and released like any other"""
+    from pynetdicom2 import applicationentity as aem, sopclass as sc
+    srv, _ = build_server(16384)
+    srv.timeout = None
+    port = srv.server_address[1]
+    box = {}
+
+    def body():
+        try:
+            cli = aem.ClientAE('PATIENT').add_scu(sc.verification_scu)
+            cli.timeout = None
+            with cli.request_association({'aet': 'SRV', 'address': '127.0.0.1', 'port': port}) as assoc:
+                box['st'] = [int(assoc.get_scu(sc.VERIFICATION_SOP_CLASS)(k + 1)) for k in range(3)]
+        except BaseException as e:  # pylint: disable=broad-except
+            box['exc'] = e
+    with srv:
+        th = threading.Thread(target=body, daemon=True)
+        th.start()
+        th.join(20)
+        if th.is_alive():
+            return 'entities with timeout None: three C-ECHOs did not finish within 20 s'
+    if 'exc' in box:
+        return 'entities with timeout None: the association raised %r' % (box['exc'],)
+    if box.get('st') != [0, 0, 0]:
+        return 'entities with timeout None: C-ECHO statuses %r' % (box.get('st'),)
+    return None
+
+
 def entity_job(case):
     """one real-entity case, run in a worker process: a verdict text, a list of problems (rounds), or None"""
     try:
@@ -557,6 +587,8 @@ def entity_job(case):
 
 
 def replay(case):
+    if case.get('timeout_none'):
+        return timeout_none_case(case)
     if case.get('refusals'):
         return refusals_case(case)
     if case.get('wrapper_ids'):
@@ -643,8 +675,9 @@ def run(chk):
     jobs = [({'dead_peer': True, 'timeout': 6, 'healthy': 3}, 'dead-peer', 'one entity, 3 healthy requests + 1 to a peer that never answers'),
             ({'wrapper_ids': True, 'threads': 4, 'calls': 3}, 'wrapper-ids', '4 threads x 3 c_find() calls, ids seen by the provider'),
             ({'refusals': True, 'refused': 24, 'wait': 13}, 'refusals', '24 refused requests whose peers stay connected, then a good one'),
-            ({'silent_peer': True, 'busy': 3, 'wait': 16}, 'silent-peer', 'one entity: a silent connection while 3 associations run')]
-    res = common.bounded_map(entity_job, [j[0] for j in jobs], 4, 150)
+            ({'silent_peer': True, 'busy': 3, 'wait': 16}, 'silent-peer', 'one entity: a silent connection while 3 associations run'),
+            ({'timeout_none': True}, 'timeout-none', 'entities configured to wait for ever (timeout None) on both sides')]
+    res = common.bounded_map(entity_job, [j[0] for j in jobs], 5, 150)
     for (case, label, what), r in zip(jobs, res):
         if isinstance(r, str) and r.startswith('harness:'):
             common.raise_for(r[len('harness:'):])
